@@ -1062,10 +1062,21 @@ Proof.
   destruct (run pr st1 ops) as [st2 xs]. reflexivity.
 Qed.
 
+Lemma get_info_prune : forall ep hepoch m,
+  get_info ep (prune_infos hepoch m) = if stale64 ep hepoch then None else get_info ep m.
+Proof.
+  intros ep hepoch m. unfold prune_infos. induction m as [|[k w] m IH]; cbn [filter fst get_info].
+  - destruct (stale64 ep hepoch); reflexivity.
+  - destruct (stale64 k hepoch) eqn:S; cbn [negb get_info].
+    + rewrite IH. destruct (N.eqb_spec k ep) as [E|E]; [subst k; rewrite S|]; reflexivity.
+    + destruct (N.eqb_spec k ep) as [E|E]; [subst k; rewrite S; reflexivity|exact IH].
+Qed.
+
 Lemma step_infos : forall pr st o ep,
   get_info ep (st_infos (fst (step pr st o))) = last_info pr ep [o] (get_info ep (st_infos st)).
 Proof.
-  intros pr st o ep. destruct o as [ep' cur na df sf ds|dslot cur af na atts]; cbn [step last_info].
+  intros pr st o ep. destruct o as [ep' cur na df sf ds|dslot cur af na atts|hslot cur]; cbn [step last_info].
+  3: { destruct (hslot =? cur); cbn [fst st_infos andb]; [apply get_info_prune|reflexivity]. }
   - destruct na; cbn [fst st_infos].
     + rewrite get_set_info. reflexivity.
     + destruct df; cbn [fst st_infos].
@@ -1090,19 +1101,34 @@ Proof.
 Qed.
 
 (* operations that leave the information of epoch [ep] alone *)
-Definition keeps (ep : N) (o : op) : Prop :=
+Definition keeps (pr : params) (ep : N) (o : op) : Prop :=
   match o with
   | OSub ep' _ no_accounts duties_fail _ _ => ep' <> ep \/ (no_accounts = false /\ duties_fail = true)
   | OAtt _ _ _ _ _ => True
+  | OHead hslot cur => hslot <> cur \/ hslot / spe pr <= ep + 1
+      (* a head that is not of the current slot, or whose epoch is at most the one after [ep]:
+         [ep] is the head's epoch, the one before it, or a later one *)
   end.
 
-Lemma last_info_keeps : forall pr ep ops acc, Forall (keeps ep) ops -> last_info pr ep ops acc = acc.
+(* the uint64 test of the code is the plain one as long as ep + 1 does not wrap *)
+Lemma stale64_spec : forall ep hepoch, ep + 1 < two64 -> stale64 ep hepoch = (ep + 1 <? hepoch).
 Proof.
-  intros pr ep ops. induction ops as [|o ops IH]; intros acc F; [reflexivity|].
-  inversion F as [|? ? K F']; subst. destruct o as [ep' cur na df sf ds|]; cbn [last_info].
-  - cbn [keeps] in K. rewrite IH by exact F'. destruct (N.eqb_spec ep' ep) as [E|E]; [|reflexivity].
+  intros ep hepoch B. unfold stale64, wrap64. rewrite N.mod_small by exact B. reflexivity.
+Qed.
+
+Lemma last_info_keeps : forall pr ep ops acc, ep + 1 < two64 ->
+  Forall (keeps pr ep) ops -> last_info pr ep ops acc = acc.
+Proof.
+  intros pr ep ops. induction ops as [|o ops IH]; intros acc B F; [reflexivity|].
+  inversion F as [|? ? K F']; subst. destruct o as [ep' cur na df sf ds| |hslot cur]; cbn [last_info].
+  - cbn [keeps] in K. rewrite IH by assumption. destruct (N.eqb_spec ep' ep) as [E|E]; [|reflexivity].
     destruct K as [K|[-> ->]]; [contradiction|reflexivity].
-  - apply IH. exact F'.
+  - apply IH; assumption.
+  - cbn [keeps] in K. rewrite IH by assumption.
+    destruct (N.eqb_spec hslot cur) as [E|E]; cbn [andb]; [|reflexivity].
+    destruct K as [K|K]; [contradiction|]. rewrite stale64_spec by exact B.
+    destruct (N.ltb_spec (ep + 1) (hslot / spe pr)) as [L|L]; [|reflexivity].
+    exfalso. apply (N.lt_irrefl (ep + 1)). eapply N.lt_le_trans; [exact L|exact K].
 Qed.
 
 (* jobs: one step never loses a job, keeps the names distinct and the times right *)
@@ -1128,7 +1154,8 @@ Lemma step_jobs : forall pr st o,
 Proof.
   intros pr st o.
   assert (Same : (exists new, st_jobs st = st_jobs st ++ new)) by (exists []; rewrite app_nil_r; reflexivity).
-  destruct o as [ep' cur na df sf ds|dslot cur af na atts]; cbn [step].
+  destruct o as [ep' cur na df sf ds|dslot cur af na atts|hslot cur]; cbn [step].
+  3: { destruct (hslot =? cur); cbn [fst st_jobs]; auto. }
   - destruct na; [cbn [fst st_jobs]; auto|]. destruct df; cbn [fst st_jobs]; auto.
   - destruct af; [auto|]. destruct atts as [|a atts]; [auto|].
     destruct (get_info (dslot / spe pr) (st_infos st)) as [info|]; [|auto].
@@ -1162,7 +1189,7 @@ Proof. intros pr st dslot cur no_acct a atts info H. cbn [step]. rewrite H. refl
    leave that epoch's information alone, then an attest of a slot of the epoch. *)
 Lemma history_selected_committee_gets_job :
   forall pr ops1 ep cur1 sign_fail ds ops2 dslot cur no_acct atts a d,
-    Forall (keeps ep) ops2 -> dslot / spe pr = ep ->
+    ep + 1 < two64 -> Forall (keeps pr ep) ops2 -> dslot / spe pr = ep ->
     consistent_duties ds -> digests_ok ds ->
     In a atts -> cur <= a_slot a ->
     duty_for (sign_ok_of sign_fail) ds (a_slot a) (a_comm a) d -> selected (agg_target pr) d = true ->
@@ -1180,11 +1207,11 @@ Lemma history_selected_committee_gets_job :
                      selected (agg_target pr) d' = true /\ j_val j = d_val d' /\ j_sig j = d_sig d') /\
          exists a', In a' atts /\ akey a' = akey a /\ j_root j = a_root a').
 Proof.
-  intros pr ops1 ep cur1 sign_fail ds ops2 dslot cur no_acct atts a d K E C G Ha Hc Hd Hs Hacct st r.
+  intros pr ops1 ep cur1 sign_fail ds ops2 dslot cur no_acct atts a d B K E C G Ha Hc Hd Hs Hacct st r.
   assert (I : get_info (dslot / spe pr) (st_infos st) =
               Some (subscription_info (agg_target pr) (sign_ok_of sign_fail) ds)).
   { unfold st. rewrite run_infos, last_info_app. cbn [last_info]. rewrite E, N.eqb_refl.
-    apply last_info_keeps. exact K. }
+    apply last_info_keeps; [exact B|exact K]. }
   assert (Inv : jobs_inv pr (st_jobs st)) by (apply run_jobs, init_inv).
   destruct atts as [|a0 atts]; [destruct Ha|].
   unfold r. rewrite (step_att _ _ _ _ _ _ _ _ I). cbn [fst snd st_jobs].
@@ -1347,4 +1374,38 @@ Proof.
   assert (E : forall l, filter (same_key s c) l = filter (fun d => d_comm d =? c) (filter (same_slot s) l)).
   { intro l. rewrite filter_filter. reflexivity. }
   rewrite (E M'), (E M), H. reflexivity.
+Qed.
+
+(* --- head events --- *)
+Lemma step_head : forall pr st hslot cur ep, ep + 1 < two64 ->
+  let st' := fst (step pr st (OHead hslot cur)) in
+  st_jobs st' = st_jobs st /\
+  get_info ep (st_infos st') =
+    if (hslot =? cur) && (ep + 1 <? hslot / spe pr) then None else get_info ep (st_infos st).
+Proof.
+  intros pr st hslot cur ep B. cbn [step]. destruct (hslot =? cur); cbn [fst st_jobs st_infos andb].
+  - split; [reflexivity|]. rewrite get_info_prune, stale64_spec by exact B. reflexivity.
+  - split; reflexivity.
+Qed.
+
+Lemma step_head_early : forall pr st hslot cur ep, ep + 1 < two64 -> hslot / spe pr <= 1 ->
+  get_info ep (st_infos (fst (step pr st (OHead hslot cur)))) = get_info ep (st_infos st).
+Proof.
+  intros pr st hslot cur ep B E. rewrite (proj2 (step_head pr st hslot cur ep B)).
+  destruct (N.ltb_spec (ep + 1) (hslot / spe pr)) as [L|L]; [|rewrite andb_false_r; reflexivity].
+  exfalso. lia.
+Qed.
+
+Lemma by_subtraction_epoch0 : forall ep, ep + 1 < two64 -> stale64_by_subtraction ep 0 = true.
+Proof.
+  intros ep B. unfold stale64_by_subtraction, sub64. cbn [N.leb]. apply N.ltb_lt.
+  change (1 <=? 0) with false. cbn iota. unfold two64 in *. lia.
+Qed.
+
+Lemma by_subtraction_later : forall ep hepoch, 1 <= hepoch -> ep + 1 < two64 ->
+  stale64_by_subtraction ep hepoch = stale64 ep hepoch.
+Proof.
+  intros ep hepoch H B. rewrite stale64_spec by exact B. unfold stale64_by_subtraction, sub64.
+  destruct (N.leb_spec 1 hepoch) as [L|L]; [|lia].
+  destruct (N.ltb_spec ep (hepoch - 1)), (N.ltb_spec (ep + 1) hepoch); try reflexivity; lia.
 Qed.
